@@ -36,11 +36,7 @@ Definition model_agrees (c : case) : bool :=
   | Select sty t e o => mout_is (model_select (parsed sty e) t) o
   end.
 
-(* what the property demands *)
-Definition spec_rows (e : expr) (t : table) : list Z := map (fun r => Z.b2z (passes e r)) t.
-Definition code_of_tv (o : option tv) : Z :=
-  match o with Some TT => 1 | Some FF => 0 | _ => 2 end.
-Definition spec_vals (e : expr) (t : table) : list Z := map (fun r => code_of_tv (sem3 e r)) t.
+(* what the property demands: spec_rows / spec_vals of Model/PredClass.v *)
 
 (* does the implementation's behaviour satisfy the property itself on this case?
    The property speaks only where the reference semantics is defined on every row. *)
